@@ -376,8 +376,11 @@ var syntaxPieces = []string{
 func syntaxPrefix(ch *kernel.Chooser) string {
 	var sb strings.Builder
 	for i, n := 0, 1+ch.Choose(3); i < n; i++ {
-		sb.WriteString(syntaxPieces[ch.Choose(len(syntaxPieces))])
-		if ch.Bool(1, 2) {
+		piece := syntaxPieces[ch.Choose(len(syntaxPieces))]
+		sb.WriteString(piece)
+		// an expression-like piece always ends in `;`: left open, its last operand would continue into a program that
+		// starts with `[` or `(` on the next line (as in JavaScript), and the prefix would no longer be self-contained
+		if !strings.HasSuffix(piece, "}") {
 			sb.WriteString(";")
 		}
 		sb.WriteString("\n")
